@@ -95,7 +95,7 @@ def _orientation(r):
 
 
 SCENARIOS = ['regular', 'regular', 'atol_only', 'rtol_only', 'wobble', 'wobble', 'wobble_dups', 'wobble_gaps', 'dups', 'gaps', 'gaps_hint', 'dups_gaps', 'jitter_in', 'jitter_out',
-             'shear_in', 'shear_out', 'twin', 'hint_ok', 'hint_neg', 'hint_bad', 'unsorted', 'missing_jitter_in',
+             'shear_in', 'shear_out', 'twin', 'hint_ok', 'hint_neg', 'hint_bad', 'unsorted', 'unsorted_hint', 'unsorted_hint', 'missing_jitter_in',
              'missing_jitter_out', 'gaps_far_in', 'gaps_far_out', 'gaps_far_half', 'irregular', 'single', 'all_same']
 
 
@@ -290,9 +290,19 @@ def _scenario(r, idx, want=None):
     # positions
     pos = [origin + k * s * nrm + offs.get(i, np.zeros(3)) for i, k in enumerate(ks)]
     order = list(range(len(ks)))
-    if sc == 'unsorted':
+    if sc in ('unsorted', 'unsorted_hint'):
         opts['sort'] = False
         kind = r.choice(['along', 'against', 'shuffled', 'along_enforced', 'against_enforced'])
+        if sc == 'unsorted_hint':
+            # sort=False x a MATCHING spacing hint (either sign) x planes listed along or against the positive normal: the hint is
+            # compared with the magnitude of the inferred spacing, so it never turns a right answer into an error
+            kind = r.choice(['along', 'against', 'against', 'along_enforced', 'against_enforced'])
+            n_h = max(len(ks), 2)
+            if len(ks) < 2:
+                pos.append(origin + (ks[-1] + 1) * s * nrm)
+                ks.append(ks[-1] + 1)
+                order = list(range(len(ks)))
+            opts['spacing_hint'] = s * r.choice([1, 1, -1])
         if kind.startswith('against'):
             order = order[::-1]
         elif kind == 'shuffled':
@@ -675,6 +685,77 @@ def _stored_values(ds):
     return ds.pixel_array.astype(np.float64) * float(ds.RescaleSlope) + float(ds.RescaleIntercept)
 
 
+def _multiframe_gaps(ctx, reqs, pend, r, case, base, ori, cls, s, rows, cols, order):
+    """A multi-frame image with MISSING slice positions read through the Image-level entry points (get_volume_geometry,
+    get_volume with allow_missing_positions=True), in memory and after a bytes round trip, frames in a shuffled order: the
+    volume spans lowest..highest plane (max index + 1 slices, missing ones included), every present plane holds its frame,
+    the origin is the lowest plane; without the flag the image is refused."""
+    import copy
+    import io
+    import pydicom
+    import highdicom as hd
+    from gen.images import to_bytes
+    nsl = int(base.NumberOfFrames)
+    ds = copy.deepcopy(base)
+    gen_nrm = np.cross(np.array(ori[:3]), np.array(ori[3:]))
+    p0 = np.array([float(x) for x in ds.PerFrameFunctionalGroupsSequence[0].PlanePositionSequence[0].ImagePositionPatient])
+    # plane numbers with gaps, two neighbours present (frame k of the generated image sits at plane ks[k])
+    ks = [0, 1]
+    while len(ks) < nsl:
+        ks.append(ks[-1] + r.choice([1, 2, 2, 3]))
+    if ks[-1] == nsl - 1:
+        ks[-1] += 1
+    for k, it in zip(ks, ds.PerFrameFunctionalGroupsSequence):
+        it.PlanePositionSequence[0].ImagePositionPatient = [float(x) for x in p0 + k * s * gen_nrm]
+    ds = _permute_frames(ds, order)
+    kperm = [ks[k] for k in order]
+    nvol = _normal(ori, 'DR', 'RIGHT_HANDED')
+    dist = [float(np.dot(p0 + k * s * gen_nrm, nvol)) for k in kperm]
+    lo = min(dist)
+    want_idx = [int(round((d - lo) / abs(s))) for d in dist]         # by construction exact multiples
+    want_n = max(want_idx) + 1
+    gcase = dict(case, fn='Image.get_volume(allow_missing_positions)', planes=kperm)
+    variants = [('memory', ds)]
+    st_b, back = _call(lambda d: pydicom.dcmread(io.BytesIO(to_bytes(d))), ds)
+    if st_b == 'ok':
+        variants.append(('bytes', back))
+    per = rows * cols
+    fr = np.frombuffer(ds.PixelData[:nsl * per * 2], dtype=np.uint16).reshape(nsl, rows, cols)
+    for vname, dv in variants:
+        im = hd.Image.from_dataset(dv, copy=False)
+        stg, geo = _call(im.get_volume_geometry, allow_missing_positions=True)
+        stv, vol = _call(im.get_volume, allow_missing_positions=True)
+        str_, _x = _call(im.get_volume)
+        ctx.case(scenario='multiframe-gaps', n=nsl, ori=cls, outcome=stv if stv == 'ok' else vol,
+                 nontrivial_key=('mfgaps', vname, nsl, cls, stv))
+        if str_ == 'ok':
+            ctx.fail(dict(gcase, variant=vname), 'image with missing slice positions assembled without allow_missing_positions', site='Image.get_volume')
+        if stg != 'ok' or geo is None or stv != 'ok':
+            ctx.fail(dict(gcase, variant=vname), f'image with declared gaps refused: geometry {stg}, volume {stv if stv == "ok" else vol}', site='Image.get_volume')
+            continue
+        lowest = p0 + kperm[dist.index(lo)] * s * gen_nrm
+        for name, g in (('get_volume_geometry', geo), ('get_volume', vol)):
+            if int(g.spatial_shape[0]) != want_n:
+                ctx.fail(dict(gcase, variant=vname, api=name), {'what': 'number of slices is not highest - lowest plane + 1',
+                                                               'got': int(g.spatial_shape[0]), 'want': want_n}, site='Image.get_volume')
+            if abs(g.spacing[0] - abs(s)) > 1e-6 * abs(s) or np.abs(np.array(g.position) - lowest).max() > 1e-6 * (1 + np.abs(lowest).max()):
+                ctx.fail(dict(gcase, variant=vname, api=name), {'what': 'spacing / origin of the volume with gaps', 'spacing': float(g.spacing[0]),
+                                                               'position': list(g.position), 'want': [abs(s), lowest.tolist()]}, site='Image.get_volume')
+        if int(vol.spatial_shape[0]) == want_n:
+            for f, sl in enumerate(want_idx):
+                pv = getattr(dv.PerFrameFunctionalGroupsSequence[f], 'PixelValueTransformationSequence', None)
+                want_px = fr[f].astype(np.float64) * (float(pv[0].RescaleSlope) if pv else 1.0) + (float(pv[0].RescaleIntercept) if pv else 0.0)
+                if not np.array_equal(vol.array[sl], want_px):
+                    ctx.fail(dict(gcase, variant=vname, frame=f + 1, slice=sl), 'a present plane does not hold its frame', site='Image.get_volume')
+                    break
+        if vname == 'memory':
+            fpos = [[float(x) for x in it.PlanePositionSequence[0].ImagePositionPatient] for it in dv.PerFrameFunctionalGroupsSequence]
+            sbs = float(dv.SharedFunctionalGroupsSequence[0].PixelMeasuresSequence[0].SpacingBetweenSlices)
+            reqs.append(('assembleFrames', {'positions': [RL(p) for p in fpos], 'ori': RL(ori), 'hint': R(sbs), 'allow_missing': True}))
+            pend.append((dict(gcase, fn='Image.get_volume_geometry(allow_missing_positions)'),
+                         ('frames', float(geo.spacing[0]), [float(x) for x in geo.position], int(geo.spatial_shape[0]), None), False))
+
+
 def _assembly_cases(ctx, reqs, pend):
     import highdicom as hd
     from highdicom import spatial as sp
@@ -792,6 +873,8 @@ def _assembly_cases(ctx, reqs, pend):
                 it = base.PerFrameFunctionalGroupsSequence[-1].PlanePositionSequence[0]
                 p = np.array([float(x) for x in it.ImagePositionPatient]) + 0.5 * abs(s) * np.cross(np.array(ori[:3]), np.array(ori[3:]))
                 it.ImagePositionPatient = [float(x) for x in p]
+            if not irregular and i % 3 == 1 and nsl >= 3:
+                _multiframe_gaps(ctx, reqs, pend, r, case, base, ori, cls, s, rows, cols, order)
             shuffled = _permute_frames(base, order)
             st0, v0 = _call(lambda d: hd.Image.from_dataset(d, copy=False).get_volume(), base)
             st1, v1 = _call(lambda d: hd.Image.from_dataset(d, copy=False).get_volume(), shuffled)
@@ -957,9 +1040,14 @@ def _series_wrapper_cases(ctx, reqs, pend):
                 kw = {'atol': 0.01 * s}
             elif pick == 'unsorted':
                 kw = {'sort': False, 'enforce_handedness': r.random() < 0.5}
+                if r.random() < 0.6:
+                    dsel = [copy.deepcopy(d) for d in dsel]
+                    for d in dsel:
+                        d.SpacingBetweenSlices = s          # a matching declared spacing never changes the answer
             st_w, val_w = _call(sp.get_series_volume_positions, dsel, **kw)
             st_c, val_c = _call(sp.get_volume_positions, [[float(x) for x in d.ImagePositionPatient] for d in dsel],
-                                [float(x) for x in dsel[0].ImageOrientationPatient], **kw)
+                                [float(x) for x in dsel[0].ImageOrientationPatient],
+                                **(dict(kw, spacing_hint=float(dsel[0].SpacingBetweenSlices)) if 'SpacingBetweenSlices' in dsel[0] else kw))
             ctx.case(scenario='series-options-' + pick, outcome=_observe(st_w, val_w)[0])
             if _observe(st_w, val_w) != _observe(st_c, val_c):
                 ctx.fail(dict(case, options=_plain_opts(kw)), {'what': 'get_series_volume_positions does not pass its options on',
